@@ -97,13 +97,14 @@ impl LocationListTable {
         for loc_list in self.locations.iter() {
             let mut have_base_address = have_unit_base_address;
             offsets.push(w.offset());
+            // An entry that begins with this value would be read as a base address selection.
+            let marker = !0 >> (64 - address_size * 8);
             for loc in &loc_list.0 {
                 // Note that we must ensure none of the ranges have both begin == 0 and end == 0.
                 // We do this by ensuring that begin != end, which is a bit more restrictive
                 // than required, but still seems reasonable.
                 match *loc {
                     Location::BaseAddress { address } => {
-                        let marker = !0 >> (64 - address_size * 8);
                         w.write_udata(marker, address_size)?;
                         w.write_address(address, address_size)?;
                         have_base_address = true;
@@ -113,7 +114,7 @@ impl LocationListTable {
                         end,
                         ref data,
                     } => {
-                        if begin == end {
+                        if begin == end || begin == marker {
                             return Err(Error::InvalidRange);
                         }
                         if !have_base_address {
@@ -128,7 +129,7 @@ impl LocationListTable {
                         end,
                         ref data,
                     } => {
-                        if begin == end {
+                        if begin == end || begin == Address::Constant(marker) {
                             return Err(Error::InvalidRange);
                         }
                         if have_base_address {
@@ -155,7 +156,7 @@ impl LocationListTable {
                                     .ok_or(Error::InvalidRange)?,
                             },
                         };
-                        if begin == end {
+                        if begin == end || begin == Address::Constant(marker) {
                             return Err(Error::InvalidRange);
                         }
                         if have_base_address {
